@@ -7,7 +7,7 @@ use crate::rng::Rng;
 use std::collections::{BTreeMap, BTreeSet};
 
 pub const VALID_KINDS: &[&str] = &[
-    "swap_decls", "flip_primitive", "add_property", "append_type", "alias_wrap", "touch", "revert", "move_decl", "toggle_export",
+    "swap_decls", "flip_primitive", "add_property", "append_type", "alias_wrap", "touch", "revert", "move_decl", "toggle_export", "reformat_eol", "redoc",
 ];
 pub const FILESET_KINDS: &[&str] = &["move_decl", "retarget_import", "create_file", "delete_file", "add_export_star", "foreign_content", "shadow_file", "package_shadow", "case_twin"];
 pub const DAMAGE_KINDS: &[&str] = &["truncate", "drop_line", "stray_token", "unbalance", "garbage"];
